@@ -169,6 +169,14 @@ func c12Faults() []c12Fault {
 		f("leaf-issued-by-processor-ca(O-3)", func(s *world.Spec, _ *rand.Rand) { s.Cert("inter").CN = "Intel SGX PCK Processor CA" }),
 		f("leaf-issued-by-unknown-ca", func(s *world.Spec, _ *rand.Rand) { s.Cert("inter").CN = "Intel SGX PCK Other CA" }),
 		f("leaf-without-sgx-extension", func(s *world.Spec, _ *rand.Rand) { s.Cert("leaf").Sgx.Absent = true }),
+		// the collateral signer becomes valid between the TCB Info / QE Identity instants and the CRL instants of the time set: it is
+		// judged at the instant of the document it signs, whatever else is switched on
+		f("collateral-signer-not-yet-valid-at-the-document-instants(valid-at-the-crl-instants)", func(s *world.Spec, _ *rand.Rand) {
+			s.Cert("signer").NotBefore = s.Now[2].Add(30 * time.Minute).Truncate(time.Second)
+		}),
+		f("collateral-signer-expires-between-the-document-instants-and-the-crl-instants", func(s *world.Spec, _ *rand.Rand) {
+			s.Cert("signer").NotAfter = s.Now[2].Add(30 * time.Minute).Truncate(time.Second)
+		}),
 		// what the PCK certificate SAYS about where its CRL lives is not what decides which CA's CRL is requested: the issuer is
 		f("leaf-crl-distribution-point-names-the-processor-ca", func(s *world.Spec, _ *rand.Rand) {
 			s.Cert("leaf").CRLDPs = []string{"https://api.trustedservices.intel.com/sgx/certification/v4/pckcrl?ca=processor&encoding=der"}
